@@ -51,24 +51,8 @@ def item_names():
     return names
 
 
-def c18_custom(tier, seed):
-    t0 = time.time()
-    driver.ensure_links()
-    lock = os.path.join(CONSTPROBE, "Cargo.lock")
-    if not os.path.exists(lock):
-        import shutil
-        src = os.path.join(driver.repo_path(), "Cargo.lock")
-        if not os.path.exists(src):
-            src = os.path.join(driver.HARNESS, "Cargo.lock")
-        shutil.copy(src, lock)
-    full = tier == "thorough"
-    argv = ["cargo", "build", "--offline", "--message-format=json"]
-    tdir = os.path.join(CONSTPROBE, "target", "full" if full else "quick")
-    argv += ["--target-dir", tdir]
-    if full:
-        argv += ["--features", "full"]
-    rc, msgs, stderr = cargo_json(argv, CONSTPROBE)
-    names = item_names()
+def analyse_const_messages(msgs, names, variant):
+    """classify rustc's diagnostics on the generated const items"""
     violations, inconclusive = [], []
     n_errors = 0
     for j in msgs:
@@ -106,9 +90,59 @@ def c18_custom(tier, seed):
         fam = item.split(" ")[0] if not item.startswith("ref ") else "ref." + item.split(" ")[1]
         summary = re.sub(r"\d+", "#", text)[:120]
         violations.append({"prop": "C18", "sig": f"{fam}|const-eval:{summary}", "case": f"C18 {item}",
-                           "detail": rendered[:1800], "log": [], "variant": "rustc-const-eval", "engine": "constprobe", "args": []})
+                           "detail": rendered[:1800], "log": [], "variant": variant, "engine": "constprobe", "args": []})
+    return violations, inconclusive, n_errors
+
+
+def c18_custom(tier, seed):
+    t0 = time.time()
+    driver.ensure_links()
+    lock = os.path.join(CONSTPROBE, "Cargo.lock")
+    if not os.path.exists(lock):
+        import shutil
+        src = os.path.join(driver.repo_path(), "Cargo.lock")
+        if not os.path.exists(src):
+            src = os.path.join(driver.HARNESS, "Cargo.lock")
+        shutil.copy(src, lock)
+    full = tier == "thorough"
+    argv = ["cargo", "build", "--offline", "--message-format=json"]
+    tdir = os.path.join(CONSTPROBE, "target", "full" if full else "quick")
+    argv += ["--target-dir", tdir]
+    if full:
+        argv += ["--features", "full"]
+    rc, msgs, stderr = cargo_json(argv, CONSTPROBE)
+    names = item_names()
+    violations, inconclusive, n_errors = analyse_const_messages(msgs, names, "rustc-const-eval")
+    # second pass: the same items under the nightly evaluator with -Zextra-const-ub-checks, which
+    # also validates every intermediate reference (a dangling or misaligned reference that exists
+    # only transiently inside a const fn is reported, not just the final value)
+    extra_note = None
+    if rc == 0 and not violations:
+        argv2 = ["cargo", "+nightly", "build", "--offline", "--message-format=json", "--target-dir", os.path.join(CONSTPROBE, "target", "nightly-ub-" + ("full" if full else "quick"))]
+        if full:
+            argv2 += ["--features", "full"]
+        env2 = driver.base_env()
+        env2["RUSTFLAGS"] = "-Zextra-const-ub-checks"
+        t1 = time.time()
+        p2 = subprocess.run(argv2, cwd=CONSTPROBE, env=env2, stdout=subprocess.PIPE, stderr=subprocess.PIPE)
+        msgs2 = []
+        for line in p2.stdout.decode("utf-8", "replace").splitlines():
+            if line.startswith("{"):
+                try:
+                    msgs2.append(json.loads(line))
+                except ValueError:
+                    pass
+        v2, inc2, _ = analyse_const_messages(msgs2, names, "rustc-nightly(-Zextra-const-ub-checks)")
+        violations.extend(v2)
+        if inc2 and not v2:
+            # the nightly toolchain failing for another reason says nothing about the crate
+            extra_note = "nightly extra-const-ub-checks pass did not complete: " + inc2[0][:160]
+        extra_secs = round(time.time() - t1, 1)
+    else:
+        extra_secs = 0
     agg = {}
-    build_log = [{"engines": ["constprobe"], "variant": "const-eval(full)" if full else "const-eval(quick)", "secs": round(time.time() - t0, 1), "rc": rc}]
+    build_log = [{"engines": ["constprobe"], "variant": "const-eval(full)" if full else "const-eval(quick)", "secs": round(time.time() - t0, 1), "rc": rc},
+                 {"engines": ["constprobe"], "variant": "nightly const-eval with -Zextra-const-ub-checks", "secs": extra_secs, "rc": 0 if extra_note is None else 1, "note": extra_note or ""}]
     if rc == 0:
         exe = os.path.join(tdir, "debug", "constprobe")
         res = driver.execute_raw([exe], CONSTPROBE, 600)
